@@ -1,7 +1,8 @@
 ----------------------------- MODULE Judge_c04 -----------------------------
 (* Pass V for C04 - parsing is total.  Every record is one input run through the real
    ParseQuery, ParseStatement and ParseExpr (with its parameter binding) under `recover`
-   and under a step budget counted by the scanner hooks.
+   and under a step budget counted by the scanner hooks; without parameters also through the package-level
+   helpers that take the text as a string (query_s, stmt_s, expr_s).
 
    Property, per entry point:   outcome \in {ok, err}            (a result XOR an error)
                                 ok => String / Walk / Clone of the result did not panic
@@ -29,25 +30,28 @@ Entry(o, name) ==
   ELSE IF o.out \in {"ok", "err"} THEN {}
   ELSE {V("bad-shape", name)}
 
+\* records of the Grammar corpus (valid statements) carry no part name
+PartOf(r) == IF Has(r, "part") THEN r.part ELSE "grammar"
 Ring(o) == IF o.maxn > 2 \/ o.tmaxn > 2 \/ Has(o, "tbad") THEN {V("drift:ring", "")} ELSE {}
 
 Verdicts(r) ==
   LET o == r.obs IN
   IF Has(o, "harness_panic") THEN {V("panic", "harness")}
   ELSE IF Has(o, "hang") THEN {V("hang", "watchdog")}
-  ELSE IF r.part = "grow" THEN
+  ELSE IF PartOf(r) = "grow" THEN
        LET base == Entry(o.r1, "grow") \cup Entry(o.r2, "grow") IN
        IF base # {} THEN base
        ELSE IF 8 * o.r2.steps > 18 * o.r1.steps + 512 THEN {V("nonlinear", r.family)} ELSE {}
   ELSE
-  LET hard == Entry(o.query, "ParseQuery") \cup Entry(o.stmt, "ParseStatement") \cup Entry(o.expr, "ParseExpr") IN
+  LET helpers == IF Has(o, "query_s") THEN Entry(o.query_s, "ParseQuery(string)") \cup Entry(o.stmt_s, "ParseStatement(string)") \cup Entry(o.expr_s, "ParseExpr(string)") ELSE {}
+      hard == Entry(o.query, "ParseQuery") \cup Entry(o.stmt, "ParseStatement") \cup Entry(o.expr, "ParseExpr") \cup helpers IN
   IF hard # {} THEN hard
   ELSE LET ring == Ring(o.query) \cup Ring(o.stmt) \cup Ring(o.expr)
-           model == IF r.part = "model" /\ (r.mok # (o.expr.out = "ok")) THEN {V("drift:model", "")} ELSE {}
+           model == IF PartOf(r) = "model" /\ (r.mok # (o.expr.out = "ok")) THEN {V("drift:model", "")} ELSE {}
        IN ring \cup model
 
 \* non-trivial: at least one entry point accepted the input, or it is a growth/mutation record
-NonTrivial(r) == IF r.part \in {"grow", "mut"} THEN TRUE
+NonTrivial(r) == IF PartOf(r) \in {"grow", "mut"} THEN TRUE
                  ELSE IF Has(r.obs, "expr") THEN r.obs.expr.out = "ok" \/ r.obs.stmt.out = "ok" \/ r.obs.query.out = "ok"
                  ELSE FALSE
 
